@@ -82,14 +82,25 @@ def case_strategy(tier, doc_kw=None, weights=(14, 3, 3), min_ops=12, max_ops=Non
 
 # ------------------------------------------------------------------ running
 def from_nasim(tb):
-    """True iff the innermost frame of the traceback is code under test."""
+    """True iff the exception was raised while code under test was executing:
+    below the last harness frame (nvf/) there is a frame of <repo>/nasim (the
+    innermost frame itself may be NumPy / Gymnasium called from there)."""
     repo = os.path.join(common.REPO, "nasim") + os.sep
-    last = None
+    mine = os.path.join(common.VERIF, "nvf") + os.sep
+    last_nasim = None
+    seen_nasim_after_harness = False
     while tb is not None:
-        last = tb
+        fn = os.path.abspath(tb.tb_frame.f_code.co_filename)
+        if fn.startswith(mine):
+            seen_nasim_after_harness = False
+        elif fn.startswith(repo):
+            seen_nasim_after_harness = True
+            last_nasim = tb
         tb = tb.tb_next
-    fn = last.tb_frame.f_code.co_filename if last else ""
-    return os.path.abspath(fn).startswith(repo), f"{os.path.basename(fn)}:{last.tb_frame.f_code.co_name}" if last else "?"
+    if seen_nasim_after_harness and last_nasim is not None:
+        code = last_nasim.tb_frame.f_code
+        return True, f"{os.path.basename(code.co_filename)}:{code.co_name}"
+    return False, "?"
 
 
 class CaseRunner:
